@@ -36,7 +36,9 @@ def apply_sar_adc(
     -------
     ndarray
     """
-    data_digitized_2d = np.zeros((num_rows, num_cols))
+    # The digital values are accumulated as integers: a float cannot hold all
+    # the bits of a code of more than 53 bits
+    data_digitized_2d = np.zeros((num_rows, num_cols), dtype=get_dtype(adc_bits))
 
     signal_normalized_2d = signal_2d.copy()
 
@@ -44,7 +46,7 @@ def apply_sar_adc(
     ref: float = max_volt / 2.0
 
     # For each bits, compare the value of the ref to the capacitance value
-    for i in np.arange(adc_bits):
+    for i in range(adc_bits):
         # digital value associated with this step
         digital_value = 2 ** (adc_bits - (i + 1))
 
@@ -57,8 +59,7 @@ def apply_sar_adc(
         # Divide reference voltage by 2 for next step
         ref /= 2.0
 
-    dtype = get_dtype(adc_bits)
-    return data_digitized_2d.astype(dtype)
+    return data_digitized_2d
 
 
 # TODO: documentation, range volt - only max is used
